@@ -96,25 +96,35 @@ Definition jq_binop_of_text (text : list N) : option binop :=
 
 Definition tok_text (t : ltok) : list N := match tkind t with KChar c => [c] | _ => ttext t end.
 
-Fixpoint to_optoks (use_gen : bool) (ts : list ltok) : option (list (tok (list N))) :=
+(* what the parser sees of a token: its kind and its text *)
+Definition proj (t : ltok) : tk * list N := (tkind t, tok_text t).
+
+(* model path (use_gen): token kinds decide, through the regenerated tables.  Property path: the TEXT of the
+   token decides (an operator of jq is an operator whatever kind the current lexer gives it), atoms are the
+   remaining identifiers *)
+Definition optok_of (use_gen : bool) (k : tk) (text : list N) : option (tok (list N)) :=
+  let is_ident := match k with KTok n => String.eqb n "tokIdent" | _ => false end in
+  match k with
+  | KChar 40 => Some TLP
+  | KChar 41 => Some TRP
+  | _ =>
+      if use_gen then
+        if is_ident then Some (TAtom text) else option_map TOp (gen_binop_of_tok k text)
+      else
+        match jq_binop_of_text text with
+        | Some o => Some (TOp o)
+        | None => if is_ident then Some (TAtom text) else None
+        end
+  end.
+
+Fixpoint to_optoks (use_gen : bool) (ts : list (tk * list N)) : option (list (tok (list N))) :=
   match ts with
   | [] => Some []
-  | t :: r =>
-      match tkind t with
-      | KEOF => Some []
-      | k =>
-          let here :=
-            match k with
-            | KChar 40 => Some TLP
-            | KChar 41 => Some TRP
-            | KTok n => if String.eqb n "tokIdent" then Some (TAtom (ttext t))
-                        else option_map TOp (if use_gen then gen_binop_of_tok k (tok_text t) else jq_binop_of_text (tok_text t))
-            | _ => option_map TOp (if use_gen then gen_binop_of_tok k (tok_text t) else jq_binop_of_text (tok_text t))
-            end in
-          match here, to_optoks use_gen r with
-          | Some x, Some xs => Some (x :: xs)
-          | _, _ => None
-          end
+  | (KEOF, _) :: _ => Some []
+  | (k, text) :: r =>
+      match optok_of use_gen k text, to_optoks use_gen r with
+      | Some x, Some xs => Some (x :: xs)
+      | _, _ => None
       end
   end.
 
@@ -128,7 +138,7 @@ Fixpoint enc_expr (e : expr (list N)) : sexp :=
 Definition model_parse (use_gen : bool) (src : list N) : option (option (expr (list N))) :=
   match tokenize src with
   | Some ts =>
-      match to_optoks use_gen ts with
+      match to_optoks use_gen (map proj ts) with
       | Some ots => Some (if use_gen then Ops.parse (list N) gen_lvl gen_asc ots else Ops.parse (list N) jq_lvl jq_asc ots)
       | None => None
       end
